@@ -14,6 +14,10 @@ structure GenCfg where
   shared : Bool := true
   chains : Bool := true
   optOuter : Bool := true
+  /-- several combinations in one component (wAND): only directly inside the component's
+      parentheses; `nestedMulti` also as operand of a combination (known-finding class) -/
+  multi : Bool := true
+  nestedMulti : Bool := false
   deriving Repr
 
 def words : Array String := #["farmer","operator","must","comply","with","the","rules","annual",
@@ -57,7 +61,9 @@ def decorateLeaf (e : Expr) : GS Expr := do
 
 def ops3 : List Op3 := [.AND, .OR, .XOR]
 
-partial def genExpr (cfg : GenCfg) (d : Nat) : GS Expr := do
+partial def genExpr (cfg0 : GenCfg) (d : Nat) : GS Expr := do
+  -- `cfg`: what operands may contain; `cfg0`: what this position may contain
+  let cfg : GenCfg := { cfg0 with multi := cfg0.nestedMulti }
   let r ← liftG (below 100)
   if d = 0 || r < 35 then
     pure (.leaf (← genText))
@@ -72,7 +78,7 @@ partial def genExpr (cfg : GenCfg) (d : Nat) : GS Expr := do
     for _ in [0:k] do
       es := (← genExpr cfg (d-1)) :: es
     pure (.chain o e₁ e₂ es)
-  else if cfg.shared && r < 91 then
+  else if cfg.shared && cfg0.multi && r < 91 then
     -- several combinations inside one component (wAND)
     let mk := fun (_ : Unit) => do pure (Expr.comb (← liftG (pick ops3)) (← genExpr cfg (d-1)) (← genExpr cfg (d-1)))
     let opt := fun (_ : Unit) => do if (← liftG (chance 2 3)) then pure (some (← genText)) else pure (none : Option Str)
